@@ -112,7 +112,7 @@ PROPS = {
         level_note='Trusts the generator (expected list = what was written). Keys are non-empty and do not start with ":".',
         technique='constructive-oracle monitor under AddressSanitizer/UBSan',
         stages=[dict(harness='c17', variant='asan', quick=50000, thorough=5000000,
-                     need=['blocks', 'entries_iterated', 'lookups', 'blocks.macro_built', 'blocks.empty', 'blocks.repeated_key', 'blocks.empty_value_not_last', 'blocks.value_starts_with_colon'])],
+                     need=['blocks', 'entries_iterated', 'lookups', 'blocks.macro_built', 'blocks.empty', 'blocks.repeated_key', 'blocks.empty_value_not_last', 'blocks.value_starts_with_colon', 'blocks.long_value', 'blocks.long_key'])],
         rule='case = one metadata block; distinct = hash of the block bytes; every block is non-trivial (>=1 entry iterated, looked up and measured).',
         exhaustive=dict(quick=False, thorough=False),
         assumptions=['expected entries are the generator\'s own list']),
@@ -121,7 +121,7 @@ PROPS = {
         level_note='apropos is only required where no sibling name (raw or expanded) is a prefix of another (conservative predicate computed per table). path_search locations are "", "/" or the address of a sub-tree port without trailing slash. Metadata of equal-named children is compared as a multiset under the sorting options (std::sort is not stable).',
         technique='reference-model differential monitor under AddressSanitizer/UBSan',
         stages=[dict(harness='c18', variant='asan', quick=40000, thorough=2000000,
-                     need=['collapse.paths', 'collapse.with_dotdot', 'apropos.lookups', 'apropos.lookups_enumerated', 'apropos.lookups_deep_leaf_with_trailing_slash', 'search.array_api', 'search.message_api',
+                     need=['collapse.paths', 'collapse.with_dotdot', 'apropos.lookups', 'apropos.lookups_enumerated', 'search.one_character_relative_location', 'apropos.lookups_deep_leaf_with_trailing_slash', 'search.array_api', 'search.message_api',
                            'search.opt_0', 'search.opt_1', 'search.opt_2', 'search.prefix_filtered', 'search.more_than_16_results'])],
         rule='case = one path (2 of 4), one generated tree with all walked addresses (1 of 4) or one (tables, location, prefix, option) query (1 of 4); '
              'distinct = hash of the rendered case; every case is non-trivial.',
